@@ -34,7 +34,7 @@ def attr_list(d):
     return ", ".join(parts)
 
 def add(fid, family, flavour, policy=None, limit=None, ttl=None, mem=None, fw=None, result=None, cache_if=False,
-        inval_on=False, versioned=False, tags=(), events=(), deps=(), name=None, gates=0):
+        inval_on=False, versioned=False, tags=(), events=(), deps=(), name=None, gates=0, early=False):
     if family != "meta" and flavour != "thread" and not (tags or events or deps):
         # a declared tag registers the clear callback, which the harness uses to empty store *and* queue between histories
         tags = ("rst",)
@@ -61,7 +61,13 @@ def add(fid, family, flavour, policy=None, limit=None, ttl=None, mem=None, fw=No
         spawn = "None"
     mac = "cache_async" if flavour == "async" else "cache"
     asy = "async " if flavour == "async" else ""
-    if not gates:
+    if not gates and early:
+        # bodies that leave through an explicit `return` / `?` for some arguments (key 1) and through the tail expression for others
+        if result:
+            code.append(f"#[{mac}({attr_list(d)})]\npub {asy}fn {fn}(k: u32) -> {rty} {{ let v = {body}({fid}, k)?; if k == 1 {{ return Ok(v); }} Ok(v) }}")
+        else:
+            code.append(f"#[{mac}({attr_list(d)})]\npub {asy}fn {fn}(k: u32) -> {rty} {{ if k == 1 {{ return {body}({fid}, k); }} {body}({fid}, k) }}")
+    elif not gates:
         code.append(f"#[{mac}({attr_list(d)})]\npub {asy}fn {fn}(k: u32) -> {rty} {{ {body}({fid}, k) }}")
     wrap = f"block_on({fn}(k))" if flavour == "async" else f"{fn}(k)"
     ret = f"Ret::Res({wrap})" if result else f"Ret::Plain({wrap})"
@@ -92,6 +98,16 @@ for fl in FLAVS:
     for pol in (None, "lru", "lfu", "arc"):
         add(fid, "core", fl, policy=pol, limit=3)
         fid += 1
+# --- bodies with early exits, and tight memory budgets (70 bytes: two of the 33-byte entries fit, a third one evicts)
+fid = 1600
+for fl in FLAVS:
+    for pol in (None, "lru"):
+        add(fid, "core", fl, policy=pol, early=True)
+        fid += 1
+for fl in FLAVS:
+    for pol in (None, "lru", "lfu", "arc", "tlru"):
+        add(fid, "core", fl, policy=pol, mem=70)
+        fid += 1
 # --- Result functions
 fid = 2000
 for fl in FLAVS:
@@ -101,6 +117,18 @@ for fl in FLAVS:
                 for mem in (None, 100):
                     add(fid, "result", fl, policy=pol, limit=lim, mem=mem, result=sp)
                     fid += 1
+for fl in FLAVS:
+    add(fid, "result", fl, result="short", early=True)
+    fid += 1
+# a refresh that fails: invalidate_on calls the stored Ok stale and the body returns Err
+for fl in FLAVS:
+    for lim in (None, 2):
+        add(fid, "result", fl, limit=lim, result="short", inval_on=True)
+        fid += 1
+# an Ok that expires: Result together with ttl
+for fl in FLAVS:
+    add(fid, "result", fl, ttl=2, result="short")
+    fid += 1
 # --- cache_if
 fid = 3000
 for fl in FLAVS:
@@ -109,6 +137,18 @@ for fl in FLAVS:
             for lim in (None, 1):
                 add(fid, "cache_if", fl, limit=lim, mem=mem, result=res, cache_if=True)
                 fid += 1
+# both predicates on one function: a refresh goes through cache_if like any other result
+for fl in FLAVS:
+    for lim in (None, 2):
+        add(fid, "cache_if", fl, limit=lim, cache_if=True, inval_on=True, versioned=True)
+        fid += 1
+# accepted results expire like any other; all three of Result, cache_if and invalidate_on on one function
+for fl in FLAVS:
+    add(fid, "cache_if", fl, ttl=2, cache_if=True)
+    fid += 1
+for fl in FLAVS:
+    add(fid, "cache_if", fl, result="short", cache_if=True, inval_on=True)
+    fid += 1
 # --- invalidate_on (versioned bodies)
 fid = 4000
 for fl in FLAVS:
@@ -120,6 +160,11 @@ for fl in FLAVS:
 for fl in FLAVS:
     for pol in (None, "lru"):
         add(fid, "inval_on", fl, policy=pol, limit=None, ttl=2, inval_on=True, versioned=True)
+        fid += 1
+# a refresh replaces in place: with room for two entries the neighbour must survive it
+for fl in FLAVS:
+    for pol in (None, "lru"):
+        add(fid, "inval_on", fl, policy=pol, limit=2, inval_on=True, versioned=True)
         fid += 1
 # --- gated async bodies (C20): 1-3 harness-controlled await points
 fid = 7000
